@@ -2,6 +2,8 @@
 specification validates the implementation traces, how a rejection is
 attributed to a property, what counts as a non-trivial case."""
 import hashlib
+import os
+import re
 import json
 import time
 
@@ -135,6 +137,8 @@ def run_model(m, tier, work):
         return None
     if m.get('tool') == 'apalache':
         return run_apalache(m, work)
+    if m.get('tool') == 'implobs':
+        return run_implobs(m, tier, work)
     cfg = m['cfg'][tier] if isinstance(m['cfg'], dict) else m['cfg']
     extra = list(m.get('extra', []))
     rc, out = core.tlc(m['spec'], cfg, work, workers=m.get('workers', 8), extra=extra,
@@ -148,6 +152,28 @@ def run_model(m, tier, work):
         raise Inconclusive('design model %s failed in TLC (machinery failure, not a verdict):\n%s' % (m['name'], out[-4000:]))
     return dict(name=m['name'], spec=m['spec'], constants=m.get('constants', ''), distinct=st['distinct'] if st else 0,
                 generated=st['generated'] if st else 0, wall_s=round(time.time() - t0, 1), exhaustive=m.get('exhaustive', True))
+
+
+def run_implobs(m, tier, work):
+    """model-to-model trace validation (lib/vcheck/implobs.py, docs/CROSSLAYER.md): every behaviour of the design model
+    GoatImpl, projected to observable events by GoatImplObs, is accepted by Layer P; with a repaired defect re-opened
+    it is rejected. A failure here is an inconsistency between the two specification layers, not a verdict on the code."""
+    import subprocess
+    import sys
+    t0 = time.time()
+    w = os.path.join(work, 'implobs')
+    cmd = [sys.executable, os.path.join(os.path.dirname(__file__), 'implobs.py'), '--spec-dir', core.SPEC, '--work', w,
+           '--mode', 'thorough' if tier == 'thorough' else 'quick'] + (['--only', m['only']] if m.get('only') and tier != 'thorough' else [])
+    p = subprocess.run(cmd, capture_output=True, text=True, errors='replace', timeout=m.get('timeout', 5400))
+    out = p.stdout + p.stderr
+    import shutil
+    shutil.rmtree(w, ignore_errors=True)
+    if p.returncode != 0 or 'ALL AS EXPECTED' not in out:
+        raise Inconclusive('cross-layer check (GoatImpl -> GoatProtocol) did not meet its expectations:\n' + out[-4000:])
+    nb = sum(int(x) for x in re.findall(r'validated (\d+)', out))
+    ne = sum(int(x) for x in re.findall(r'\((\d+) events\)', out))
+    return dict(name=m['name'], spec='GoatImplObs.tla', constants=m.get('constants', ''), distinct=nb, generated=ne or nb,
+                wall_s=round(time.time() - t0, 1), exhaustive=False)
 
 
 def count_nontrivial(P, scens, traces):
@@ -584,6 +610,29 @@ A_MUXIDS = dict(name='MuxIds inductive invariant (Apalache): Init => IndInv, Ind
                 tool='apalache', spec='apalache/MuxIds.tla',
                 obligations=[('Init', 'IndInv', 0), ('IndInit', 'IndInv', 1), ('IndInit', 'Fresh', 1)],
                 constants='symbolic: arbitrary counter, registries of up to 6 arbitrary ids (Gen(6)); any number of calls')
+# model-to-model trace validation (GoatImplObs.tla, lib/vcheck/implobs.py, docs/CROSSLAYER.md): the behaviours of the design
+# model, projected to observable events, are judged by the very trace specification the real code's traces are judged by
+def _xl(name, only, what):
+    return dict(name='cross-layer ' + name, tool='implobs', only=only,
+                constants='TLC simulation (and breadth-first enumeration of the smallest configurations) of GoatImplObs = GoatImpl + '
+                          'a history of observable events in the harness\'s trace format; every behaviour validated by GoatTrace like a '
+                          'trace of the real code: ' + what + '; distinct = behaviours validated, generated = event lines')
+
+
+_XL = {
+    'C06': _xl('(all configurations)', '', 'every configuration of the design as it is must be accepted, every re-opened defect '
+               '(D1 D4 D5 D6 D7s D7c D22 D24) and the known finding D23 rejected, D25 accepted only through its deviation'),
+    'C02': _xl('(S1m2, Bug_D1)', 'S1m2,Bug_D1', 'two messages each way accepted; the design before D1 rejected (rule group status)'),
+    'C03': _xl('(S1, Bug_D4)', 'S1,Bug_D4', 'one stream with cancel accepted; the design before D4 rejected (rule group wire)'),
+    'C07': _xl('(S1, S1hw, Bug_D24, Known_D23)', 'S1,S1hw,Bug_D24,Known_D23', 'cancellation anywhere accepted; D24 and the known finding D23 rejected'),
+    'C09': _xl('(U2rf, S1rf, Bug_D5)', 'U2rf,S1rf,Bug_D5', 'client read failure anywhere accepted; the design before D5 rejected (pend)'),
+    'C10': _xl('(S1stop, U2stop, X_U1stop, Bug_D6)', 'S1stop,U2stop,X_U1stop,Bug_D6', 'Stop anywhere accepted (one configuration exhaustively); the design before D6 rejected (serve)'),
+    'C11': _xl('(S1capc, S1cap3, Bug_D7s, Bug_D7c, Known_D25)', 'S1capc,S1cap3,Bug_D7s,Bug_D7c,Known_D25', 'bounded transport accepted; D7s / D7c rejected (reg); D25 only through SenderHol'),
+    'C14': _xl('(S1sf, Bug_D22)', 'S1sf,Bug_D22', 'refused Send accepted; the design before D22 rejected (letgo)'),
+}
+for _p, _m in _XL.items():
+    PROPS[_p]['models'] = list(PROPS[_p].get('models', [])) + [_m]
+
 PROPS['C05']['models'] = list(PROPS['C05'].get('models', [])) + [A_MUXIDS]
 PROPS['C14']['models'] = list(PROPS['C14'].get('models', [])) + [A_MUXIDS]
 
